@@ -11,4 +11,14 @@ func NewCallbackReader(r io.Reader) (cr *CallbackReader)
 
 func (cr *CallbackReader) Close() (err error)
   trusted
+
+// a ByteCountReader yields exactly the bytes of the reader it wraps (it only counts them)
+func NewByteCountReader(r io.Reader) (b *ByteCountReader)
+  trusted
+  flag allocates
+  ensures b != nil && fresh(b) && rdRem[ref(b)] == rdRem[ifaceVal(r)] && rdFail[ref(b)] == rdFail[ifaceVal(r)]
+
+func (r *ByteCountReader) BytesRead() (n int)
+  trusted
+  pure
 @*/
